@@ -186,22 +186,24 @@ def make_case(rng, point, scene, kindname, variant):
     (inplace, has_out, has_default, fe, con, keymode, has_bs, names_mode, dev_mode, propagate, threads, leaf_mode) = point
     S = scene["self"]
     bs, dv, nm, _ = S[2]
+    nmem = len(scene["members"]) if kindname == "lazy" else 0
+    full_bs = ([nmem] + list(bs)) if kindname == "lazy" else list(bs)
     o = {"inplace": inplace, "default": has_default, "fe": fe, "con": con, "named": keymode != "plain",
          "nested_keys": keymode == "nested", "propagate": propagate,
          "leaf_tensor": True, "leaf_nont": leaf_mode in ("nontensor", "all"), "leaf_node": leaf_mode == "all"}
-    if leaf_mode == "all" and rng.random() < 0.04:
+    if leaf_mode == "all" and rng.random() < 0.04 and kindname == "regular":
         o["leaf_tensor"], o["leaf_node"] = False, False          # a perverse is_leaf: tensors are not leaves
     obs_ = None
     if has_bs:
-        obs_ = list(bs) if (rng.random() < 0.4 or not bs) else list(bs[:rng.randrange(0, len(bs))])
+        obs_ = list(full_bs) if (rng.random() < 0.4 or not full_bs) else list(full_bs[:rng.randrange(0, len(full_bs))])
     o["bs"] = obs_
-    rbs = obs_ if obs_ is not None else bs
+    rbs = obs_ if obs_ is not None else full_bs
     if names_mode == "absent":
         o["names"] = "absent"
     elif names_mode == "none":
         o["names"] = None
     else:
-        o["names"] = ["p", "q", "r"][:len(rbs)] if rng.random() < 0.8 or nm is None else list(nm[:len(rbs)])
+        o["names"] = ["p", "q", "r", "s"][:len(rbs)] if rng.random() < 0.8 or nm is None else list(nm[:len(rbs)])
     out = copy.deepcopy(scene["out"]) if has_out else None
     if out is not None and inplace and has_default:
         # inplace + out= copies out's non-tensor data into self's entries while self.empty(recurse=True) stand-ins built
@@ -232,7 +234,19 @@ def make_case(rng, point, scene, kindname, variant):
     set_lock_rec(S2, locked)
     case = {"kind": kindname, "front": front, "self": S2, "others": others, "out": out, "opts": o, "threads": threads,
             "none_pids": scene["none_pids"], "none_codes": scene["none_codes"]}
-    k = sum(1 for _ in I.walk(S2))
+    if kindname == "lazy":
+        case["members"] = copy.deepcopy(scene["members"])
+        for m in case["members"]:
+            set_lock_rec(m, locked)
+        case["others_members"] = copy.deepcopy(scene["others_members"][:n_others])
+        case["out_members"] = copy.deepcopy(scene["out_members"]) if has_out else None
+    if kindname == "alias":
+        case["alias"] = {"out": has_out, "other": n_others > 0 and variant % 2 == 0}
+        if has_out:
+            case["out"] = copy.deepcopy(S2)
+        if case["alias"]["other"]:
+            case["others"][0] = copy.deepcopy(S2)
+    k = sum(1 for _ in I.walk(S2)) * max(1, nmem)
     case["perm"] = rng.sample(range(k), k) if threads == 2 else []
     return case
 
@@ -313,6 +327,11 @@ def run_real(case, threads=None):
             selfobj = I.build_operand(case["self"], kindname, B, "self")
             others = [I.build_operand(t, kindname, B, "other") for t in case["others"]]
             outobj = I.build_operand(case["out"], kindname, B, "out") if case["out"] is not None else None
+            if kindname == "alias":
+                if case["alias"]["out"]:
+                    outobj = selfobj
+                if case["alias"]["other"]:
+                    others[0] = selfobj
     except Exception as e:  # noqa: BLE001
         return {"build_error": f"{type(e).__name__}: {e}"}
     before = {"self": I.obs(selfobj, B, light=True), "others": [I.obs(x, B, light=True) for x in others], "out": I.obs(outobj, B, light=True)}
@@ -335,6 +354,8 @@ def run_real(case, threads=None):
             res["ret"] = "cyclic" if I.has_cycle(ret) else I.obs(ret, B)
         except RecursionError:
             res["ret"] = "cyclic"
+        if res["ret_type"] == "lazy":
+            res["ret_members"] = [I.obs(m, B) for m in ret.tensordicts]
     except RecursionError:
         res["outcome"] = "raise"
         res["exc"] = "RecursionError"
@@ -350,6 +371,11 @@ def run_real(case, threads=None):
     except RecursionError:
         res["after"] = {"self": None, "others": [], "out": "cyclic"}
     res["before"] = before
+    if kindname == "sub":
+        try:
+            res["junk_row_intact"] = all(bool((v == -1).all()) for v in B.parent[1].values(True, True) if isinstance(v, torch.Tensor))
+        except Exception:  # noqa: BLE001
+            res["junk_row_intact"] = None
     return res
 
 
@@ -408,12 +434,23 @@ def model_nones(case, trees):
 
 
 def model_line(case, ran=None):
+    """the protocol line for the extracted model, or None where no model applies (lazy stacks through the stacked view
+    or a thread pool; aliased operands)"""
     o = case["opts"]
-    if case["kind"] == "lazy" and o["bs"] is None:
-        return sx([Sym("lazy"), opts_sx(o), [tree_sx(m) for m in case["members"]],
+    kindname = case["kind"]
+    if kindname == "alias":
+        return None
+    if kindname == "lazy":
+        if case["threads"] or (o["bs"] is not None and case["out"] is None):
+            return None
+        om = dict(o, bs=None)              # batch_size= is not forwarded to the members
+        return sx([Sym("lazy"), opts_sx(om), [tree_sx(m) for m in case["members"]],
                    [[tree_sx(m) for m in ms] for ms in case["others_members"]],
                    Sym("none") if case["out"] is None else [Sym("some"), [tree_sx(m) for m in case["out_members"]]],
-                   names_sx(o), o["con"], model_nones(case, case["members"])])
+                   names_sx(o), o["con"], model_nones(case, case["members"]),
+                   Sym("absent") if o["bs"] is None else list(o["bs"])])
+    if kindname == "tc" and case["front"] == "fast":
+        o = dict(o, fe=False)              # tensorclass._fast_apply forces filter_empty=False
     mode = "mt" if case["threads"] else "st"
     fwd_out = case["out"] if case["front"] != "named_apply" else None      # named_apply accepts out= and drops it
     k = sum(1 for _ in I.walk(case["self"]))
@@ -491,7 +528,7 @@ def model_obs(case, m):
         return {"outcome": m[0]}
     ev = Eval(case)
     r = m[1]
-    if case["kind"] == "lazy" and case["opts"]["bs"] is None:
+    if case["kind"] == "lazy":
         if r == "none":
             return {"outcome": "ok", "ret": None}
         return {"outcome": "ok", "members": [ev.tree(t) for t in r[1:]]}
@@ -568,10 +605,82 @@ def frame_unchanged(before, after):
     return before == after
 
 
+def dense_view(case):
+    """the stacked view of a lazy case as a regular abstract case (ids of member 0; tensors = stacks over the members)"""
+    n = len(case["members"])
+
+    def lift(t):
+        if t[0] == "L":
+            return t
+        if t[0] == "T":
+            return ["T", t[1], t[2], [[n] + list(t[3][0])] + list(t[3][1:])]
+        return ["N", t[1], [[n] + list(t[2][0])] + list(t[2][1:]), [[k, lift(c)] for k, c in t[3]]]
+    c = dict(case, kind="regular", self=lift(case["members"][0]), others=[lift(ms[0]) for ms in case["others_members"]], out=None)
+
+    def tens(z, bs):
+        return torch.stack([I.leaf_tensor(z + i, bs[1:]) for i in range(n)], 0)
+    return c, tens
+
+
+def lazy_reference(case):
+    """a lazy stack is its members side by side: the reference member by member (no batch_size override), or on the
+    stacked view (batch_size override: a regular tensordict is returned)"""
+    o = case["opts"]
+    has_out = case["out"] is not None
+    if o["inplace"]:
+        truthy = bool(o["bs"]) or (o["dev"] not in ("absent", None)) or bool(o["names"] not in ("absent", None) and o["names"])
+        given = o["bs"] is not None or o["dev"] != "absent" or o["names"] != "absent"
+        if truthy:
+            return ("raise", {"ValueError"})         # "Cannot pass other arguments to LazyStackedTensorDict.apply when inplace=True"
+        if given:
+            return ("gray", "inplace with an empty / None override on a lazy stack")
+    if o["bs"] is not None and not has_out:
+        c, tens = dense_view(case)
+        old = REF.TENS[0]
+        REF.TENS[0] = tens
+        try:
+            r = REF.reference(c)
+        finally:
+            REF.TENS[0] = old
+        return ("dense",) + r
+    if o["bs"] is not None:
+        return ("gray", "batch_size= together with out= on a lazy stack")
+    if o["names"] != "absent":
+        return ("gray", "names= on a lazy stack")
+    per = []
+    for i, m in enumerate(case["members"]):
+        ci = dict(case, kind="regular", self=m, others=[ms[i] for ms in case["others_members"]],
+                  out=(case["out_members"][i] if has_out else None))
+        per.append(REF.reference(ci))
+    if any(r[0] == "gray" for r in per):
+        return ("gray", "member: " + [r[1] for r in per if r[0] == "gray"][0])
+    if any(r[0] == "raise" for r in per):
+        errs = set()
+        for r in per:
+            if r[0] == "raise":
+                errs |= r[1]
+        return ("raise", errs)
+    rets = [r[1] for r in per]
+    if all(r is None for r in rets):
+        return ("members", None)
+    if any(r is None for r in rets) and not o["inplace"]:
+        return ("gray", "some members filtered out, some not")
+    return ("members", rets)
+
+
+def effective(case):
+    """container kinds as the nested dicts the reference speaks about"""
+    c = case
+    if case["kind"] == "tc" and case["front"] == "fast" and case["opts"]["fe"] is not False:
+        c = dict(case, opts=dict(case["opts"], fe=False))       # tensorclass._fast_apply forces filter_empty=False
+    return c
+
+
 def check_case(case, mres):
-    """one case: real run, oracle, correspondence.  Returns (oracle_failures, mismatches, counters)."""
+    """one case: real run, oracle, correspondence.  Returns (oracle_failures, mismatches, counters, observation)."""
     fails, mism, cnt = [], [], {}
     o = case["opts"]
+    kindname = case["kind"]
 
     def count(k):
         cnt[k] = cnt.get(k, 0) + 1
@@ -584,94 +693,137 @@ def check_case(case, mres):
     else:
         real = run_real(case)
     if "build_error" in real:
-        count("build-error")
+        count("build-error:" + real["build_error"][:60])
         return fails, mism, cnt, real
-    ref = REF.reference(case) if case["kind"] != "lazy" or True else None
-    gray = REF.gray_reasons(case)
+    ecase = effective(case)
+    if kindname == "lazy":
+        ref = lazy_reference(case)
+        gray = [g for g in REF.gray_reasons(dict(case, self=case["members"][0], out=(case["out_members"][0] if case["out"] is not None else None)))]
+    else:
+        ref = REF.reference(ecase)
+        gray = REF.gray_reasons(ecase)
+    if kindname == "alias" and (case["alias"]["out"] and o["inplace"]):
+        gray.append("out= is self and inplace")
     inplace, has_out = o["inplace"], case["out"] is not None
-    sigbase = {"call": case["front"], "container": case["kind"]}
+    sigbase = {"call": case["front"], "container": kindname}
     count("outcome:" + (real["outcome"] if real["outcome"] == "ok" else real["exc"]))
     for g in gray:
         count("gray:" + g)
+    alias_out = kindname == "alias" and case["alias"]["out"]
 
     # ---- O4 frame: other operands never change; self only when inplace; out only when given (and not inplace)
-    if real.get("after") is not None and real["after"].get("self") is not None:
-        b, a = real["before"], real["after"]
-        if b["others"] != a["others"]:
-            fails.append(("frame:other-operand-modified", case, {"before": b["others"], "after": a["others"]}, dict(sigbase, kind="frame-others")))
-        if not inplace and b["self"] != a["self"] and not (has_out and case.get("alias")):
-            lockonly = strip_lock(b["self"]) == strip_lock(a["self"])
+    def frame(r, call):
+        if r.get("after") is None or r["after"].get("self") is None:
+            return
+        b, a = r["before"], r["after"]
+        others_b, others_a = b["others"], a["others"]
+        if kindname == "alias" and case["alias"]["other"]:
+            others_b, others_a = others_b[1:], others_a[1:]          # the first other IS self
+        if others_b != others_a:
+            fails.append(("frame:other-operand-modified", case, {"before": others_b, "after": others_a}, dict(sigbase, call=call, kind="frame-others")))
+        if not inplace and not alias_out and b["self"] != a["self"]:
             fails.append(("frame:self-modified-without-inplace", case, {"before": b["self"], "after": a["self"]},
-                          dict(sigbase, kind="frame-self", lock_only=lockonly)))
-        if has_out and inplace and b["out"] != a["out"]:
-            fails.append(("frame:out-modified-under-inplace", case, {"before": b["out"], "after": a["out"]}, dict(sigbase, kind="frame-out")))
+                          dict(sigbase, call=call, kind="frame-self", lock_only=strip_lock(b["self"]) == strip_lock(a["self"]))))
+        if has_out and inplace and not alias_out and b["out"] != a["out"]:
+            fails.append(("frame:out-modified-under-inplace", case, {"before": b["out"], "after": a["out"]}, dict(sigbase, call=call, kind="frame-out")))
+        if r.get("junk_row_intact") is False:
+            fails.append(("frame:parent-rows-outside-the-view-modified", case, {}, dict(sigbase, call=call, kind="frame-parent")))
+    frame(real, case["front"])
 
     # ---- O1/O2/O3/O5 against the reference
     sig = dict(sigbase)
     sig.update(pattern_flags(case))
-    hard_gray = [g for g in gray if g in REF.HARD_GRAY]
+    hard_gray = [g for g in gray if g in REF.HARD_GRAY or g == "out= is self and inplace"]
     if ref[0] == "gray" or hard_gray:
         count("oracle:gray")
-    elif ref[0] == "raise":
+    elif ref[0] == "raise" or (ref[0] == "dense" and ref[1] == "raise"):
+        errs = ref[1] if ref[0] == "raise" else ref[2]
         count("oracle:documented-error")
         if real["outcome"] == "ok":
-            fails.append(("error:not-raised", case, {"expected": sorted(ref[1])}, dict(sig, kind="not-raised", expected=sorted(ref[1])[0])))
-        elif real["exc"] not in ref[1]:
-            fails.append(("error:other-class", case, {"expected": sorted(ref[1]), "got": real["exc"], "msg": real.get("msg")},
+            fails.append(("error:not-raised", case, {"expected": sorted(errs)}, dict(sig, kind="not-raised", expected=sorted(errs)[0])))
+        elif real["exc"] not in errs:
+            fails.append(("error:other-class", case, {"expected": sorted(errs), "got": real["exc"], "msg": real.get("msg")},
                           dict(sig, kind="raise", exc=real["exc"])))
-    else:
-        exp = ref[1]
+    elif ref[0] == "dense" and ref[1] == "gray":
+        count("oracle:gray")
+    elif real["outcome"] != "ok":
         count("oracle:value")
-        if real["outcome"] != "ok":
-            if real["exc"] == "RuntimeError" and REF.NAMES_CONFLICT in gray:
-                count("oracle:gray-names-conflict")
-            else:
-                fails.append(("raise:unexpected", case, {"exc": real["exc"], "msg": real.get("msg")}, dict(sig, kind="raise", exc=real["exc"])))
+        if real["exc"] == "RuntimeError" and REF.NAMES_CONFLICT in gray:
+            count("oracle:gray-names-conflict")
         else:
-            got = real["ret"]
-            d = cmp_expected(exp, got, lax_nont=REF.NONT_OUT in gray)
-            if d:
-                fails.append(("result:" + d[1], case, {"path": d[0], "got": d[2], "want": d[3]}, dict(sig, kind="result", what=d[1])))
-            else:
-                # designated object
-                want_is = "none" if exp is None else ("self" if inplace else "out" if has_out else "new")
-                if real["ret_is"] != want_is:
-                    fails.append(("result:object", case, {"returned": real["ret_is"], "want": want_is}, dict(sig, kind="object", returned=real["ret_is"])))
-                md = meta_check(case, got, gray) if got not in (None, "cyclic") else None
+            fails.append(("raise:unexpected", case, {"exc": real["exc"], "msg": real.get("msg")}, dict(sig, kind="raise", exc=real["exc"])))
+    elif ref[0] == "members":
+        count("oracle:value")
+        exp = ref[1]
+        if exp is None:
+            if real["ret"] is not None:
+                fails.append(("result:presence", case, {"got": "result", "want": "None"}, dict(sig, kind="result", what="presence")))
+        elif real.get("ret_members") is None:
+            fails.append(("result:type", case, {"got": real.get("ret_type"), "want": "lazy"}, dict(sig, kind="result", what="type")))
+        elif len(exp) != len(real["ret_members"]):
+            fails.append(("result:members", case, {"got": len(real["ret_members"]), "want": len(exp)}, dict(sig, kind="result", what="members")))
+        else:
+            for i_, (e_, g_) in enumerate(zip(exp, real["ret_members"])):
+                if e_ is None:
+                    continue                # in place: a member for which nothing was produced stays as it is
+                d = cmp_expected(e_, g_, lax_nont=REF.NONT_OUT in gray)
+                if d:
+                    fails.append(("result:" + d[1], case, {"member": i_, "path": d[0], "got": d[2], "want": d[3]}, dict(sig, kind="result", what=d[1])))
+                    break
+            want_is = "self" if inplace else "new"
+            if real["ret_is"] != want_is:
+                fails.append(("result:object", case, {"returned": real["ret_is"], "want": want_is}, dict(sig, kind="object", returned=real["ret_is"])))
+    else:
+        exp = ref[2] if ref[0] == "dense" else ref[1]
+        count("oracle:value")
+        got = real["ret"]
+        d = cmp_expected(exp, got, lax_nont=REF.NONT_OUT in gray)
+        if d:
+            fails.append(("result:" + d[1], case, {"path": d[0], "got": d[2], "want": d[3]}, dict(sig, kind="result", what=d[1])))
+        else:
+            # designated object
+            want_is = "none" if exp is None else ("self" if inplace else "out" if has_out else "new")
+            if alias_out and exp is not None and not inplace:
+                want_is = "self"
+            if ref[0] != "dense" and real["ret_is"] != want_is:
+                fails.append(("result:object", case, {"returned": real["ret_is"], "want": want_is}, dict(sig, kind="object", returned=real["ret_is"])))
+            if kindname in ("regular", "alias") and got not in (None, "cyclic") and not alias_out:
+                md = meta_check(ecase, got, gray)
                 if md:
                     fails.append(("metadata:" + md[0], case, {"got": md[1], "want": md[2]}, dict(sig, kind="metadata", what=md[0])))
-                if inplace and got is not None:
-                    idd = inplace_identity(real["before"]["self"], got)
-                    if idd:
-                        fails.append(("inplace:" + idd, case, {}, dict(sig, kind="inplace-identity", what=idd)))
-            # nothing written when the call returns None
-            if exp is None and real.get("after"):
-                if inplace and real["before"]["self"] != real["after"]["self"]:
-                    fails.append(("frame:self-written-but-None-returned", case, {}, dict(sig, kind="frame-none")))
+            if ref[0] == "dense" and got not in (None, "cyclic") and (got[2][0] != list(o["bs"]) or real["ret_type"] != "td"):
+                fails.append(("metadata:dense-result", case, {"got": [got[2][0], real["ret_type"]], "want": [o["bs"], "td"]}, dict(sig, kind="metadata", what="dense")))
+            if inplace and got is not None and kindname in ("regular", "alias", "params", "tc"):
+                idd = inplace_identity(real["before"]["self"], got)
+                if idd:
+                    fails.append(("inplace:" + idd, case, {}, dict(sig, kind="inplace-identity", what=idd)))
+            want_type = {"regular": "td", "alias": "td", "sub": "sub" if inplace else "td", "tc": "tc", "params": "params" if inplace else "td",
+                         "lazy": "td"}[kindname]
+            if has_out and not inplace and kindname != "tc":
+                want_type = "td"
+            if got is not None and real["ret_type"] != want_type:
+                fails.append(("result:type", case, {"got": real["ret_type"], "want": want_type}, dict(sig, kind="result", what="type")))
+        # nothing written when the call returns None
+        if exp is None and real.get("after") and inplace and real["before"]["self"] != real["after"]["self"]:
+            fails.append(("frame:self-written-but-None-returned", case, {}, dict(sig, kind="frame-none")))
 
     # ---- O6 multithreaded = single-threaded (direct, on a fresh copy of the operands)
     if real_mt is not None:
         st, mt = real, real_mt
         count("mt-vs-st")
-        if mt.get("after") is not None and mt["after"].get("self") is not None:
-            b, a = mt["before"], mt["after"]
-            if b["others"] != a["others"]:
-                fails.append(("frame:other-operand-modified", case, {"before": b["others"], "after": a["others"]}, dict(sigbase, call="mt", kind="frame-others")))
-            if not inplace and b["self"] != a["self"]:
-                fails.append(("frame:self-modified-without-inplace", case, {"before": b["self"], "after": a["self"]},
-                              dict(sigbase, call="mt", kind="frame-self", lock_only=strip_lock(b["self"]) == strip_lock(a["self"]))))
+        frame(mt, "mt")
         if mt["outcome"] != "ok" and st["outcome"] != "ok":
             count("mt-vs-st:both-raise")           # which exception comes first is not promised
         elif inplace and has_out and not o["leaf_nont"] and any(e[0] == "T" for _, e in I.walk(case["self"])):
             count("mt-vs-st:gray inplace + out= + non-tensor entries")    # the single-threaded form copies out's non-tensor data into self
         else:
-            a = (mt["outcome"], strip_ident(mt.get("ret")) if mt.get("ret") != "cyclic" else "cyclic")
-            b = (st["outcome"], strip_ident(st.get("ret")))
+            a = (mt["outcome"], strip_ident(mt.get("ret")) if mt.get("ret") != "cyclic" else "cyclic", mt.get("ret_type"))
+            b = (st["outcome"], strip_ident(st.get("ret")), st.get("ret_type"))
             if a != b:
                 dk = mt_diff_kind(mt, st)
-                sig = dict(sigbase, call="mt", kind="differs", diff=dk)
-                sig.update(mt_patterns(case))
-                fails.append(("mt:differs-from-single-threaded", case, {"mt": summarize(mt), "st": summarize(st), "diff": dk}, sig))
+                sg = dict(sigbase, call="mt", kind="differs", diff=dk)
+                sg.update(mt_patterns(case))
+                fails.append(("mt:differs-from-single-threaded", case, {"mt": summarize(mt), "st": summarize(st), "diff": dk}, sg))
         real = real_mt
 
     if case["threads"] == 2 and real.get("ran") is not None:
@@ -689,8 +841,11 @@ def check_case(case, mres):
         else:
             count("model:compared")
             io = impl_obs_for_model(case, real)
-            if not same_obs(io, mo):
+            loose = kindname in ("sub", "tc", "params")
+            if not same_obs(io, mo, loose):
                 mism.append(("apply:result", case, io, mo))
+    else:
+        count("model:not-applicable")
     return fails, mism, cnt, real
 
 
@@ -708,7 +863,19 @@ def same_tree(a, b):
         all(same_tree(x, y) for (_, x), (_, y) in zip(a[3], b[3]))
 
 
-def same_obs(io, mo):
+def loosen(t):
+    """sub-tensordicts, tensorclasses and parameter containers are observed as their content: node identity, lock
+    state and the identity of fresh leaves are not compared there"""
+    if t is None or isinstance(t, str) or t[0] == "L":
+        return t if (t is None or isinstance(t, str)) else ["L", "-", t[2]]
+    if t[0] == "T":
+        return ["T", "-", t[2], t[3][:3]]
+    return ["N", "-", t[2][:3], [[k, loosen(c)] for k, c in t[3]]]
+
+
+def same_obs(io, mo, loose=False):
+    if loose and io.get("outcome") == "ok" and mo.get("outcome") == "ok":
+        return same_tree(loosen(io.get("ret")), loosen(mo.get("ret")))
     if mo.get("outcome") == "cyclic":
         # the root out= was handed to a nested rebuild (S16): the structure is ill-formed; how that surfaces is not modelled
         return io.get("outcome") == "cyclic" or (io.get("outcome") == "raise" and io.get("exc") in ("ValueError", "RecursionError"))
@@ -733,7 +900,7 @@ def impl_obs_for_model(case, real):
         return {"outcome": "raise", "exc": real["exc"]}
     if real["ret"] == "cyclic":
         return {"outcome": "cyclic"}
-    if case["kind"] == "lazy" and case["opts"]["bs"] is None:
+    if case["kind"] == "lazy":
         if real["ret"] is None:
             return {"outcome": "ok", "ret": None}
         return {"outcome": "ok", "members": real.get("ret_members")}
@@ -906,45 +1073,56 @@ def chunks(l, n):
     return [l[i:i + k] for i in range(0, len(l), k)]
 
 
+KIND_MIX = ["regular"] * 11 + ["lazy"] * 3 + ["sub"] * 2 + ["tc"] * 2 + ["params", "alias"]
+
+
 def main(R):
     torch.set_num_threads(1)
     R.rule = ("one case = (lattice point, operand scene, container kind, lock state, front-end); lattice = inplace x out x default x "
               "filter_empty(None/True/False) x call_on_nested x (plain/named/nested_keys) x batch_size override x names(absent/list/None) x "
               "device(absent/same/other) x propagate_lock x num_threads(0/2/4) x is_leaf(default/nontensor/all) [x checked for _fast_apply]; "
+              "container kinds regular / lazy stack / _SubTensorDict / tensorclass / TensorDictParams / aliased (out is self, other is self); "
               "distinct by the whole case; non-trivial = self has at least one entry")
     R.assumptions = ["fn returns a new tensor shaped like its first argument (or None): what fn returns is fn's business, the model keeps it as a free term",
                      "num_threads=2 runs through a deterministic executor (tasks complete in a generated permutation); num_threads=4 uses the real ThreadPoolExecutor",
                      "batch_size= is passed as torch.Size and device= as torch.device (a list / str never compares equal to out.batch_size / out.device)",
-                     "gray combinations (listed in the input distribution as gray:*) are compared with the model only; the oracle demands nothing there but the frame"]
+                     "gray combinations (listed in the input distribution as gray:*) are compared with the model only; the oracle demands nothing there but the frame",
+                     "with inplace + out= + default= the non-tensor payloads of out equal those of self (the code aliases entry objects there, the functional model does not)",
+                     "lazy stacks through the stacked view (batch_size override), lazy stacks with a thread pool and aliased operands are checked by the oracle only"]
     R.trusted = ["harness/c20_ref.py: the reference (nested dicts) is my reading of the documented contract of apply"]
     R.step_prove()
     ok = R.step_driver()
     pts = lattice()
-    nscenes = 60 if R.quick else 400
-    kinds = ["regular"]
-    scenes = {k: [gen_scene(R.rng, k) for _ in range(nscenes)] for k in kinds}
+    nscenes = 40 if R.quick else 300
+    kinds = sorted(set(KIND_MIX))
+    scenes = {k: [(lazy_scene(R.rng) if k == "lazy" else gen_scene(R.rng, k)) for _ in range(nscenes)] for k in kinds}
     cases = []
-    per_point = 2 if R.quick else 6
+    per_point = 1 if R.quick else 8
     for pi_, pt in enumerate(pts):
         for j in range(per_point):
-            kindname = kinds[(pi_ + j) % len(kinds)]
+            kindname = R.rng.choice(KIND_MIX)
             sc = R.rng.choice(scenes[kindname])
-            cases.append(make_case(R.rng, pt, sc, kindname, pi_ * 7 + j))
+            cases.append(make_case(R.rng, pt, sc, kindname, R.rng.randrange(0, 1 << 16)))
     R.extra["lattice_points"] = len(pts)
-    nproc = min(14, os.cpu_count() or 2)
+    nproc = min(15, os.cpu_count() or 2)
     ctx = mp.get_context("fork")
-    t0 = time.time()
+    lines_all = [model_line(c, c["perm"]) for c in cases]
+    idx = [i for i, l in enumerate(lines_all) if l is not None]
+    t1 = time.time()
+    mres_l = R.model([lines_all[i] for i in idx], shards=14) if ok else []
+    mres = [None] * len(cases)
+    if ok:
+        for i, m in zip(idx, mres_l):
+            mres[i] = m
+    R.extra["model_s"] = round(time.time() - t1, 1)
+    t2 = time.time()
     with ctx.Pool(nproc) as pool:
-        lines = [model_line(c, c["perm"]) for c in cases]
-        t1 = time.time()
-        mres = R.model(lines, shards=12) if ok else [None] * len(lines)
-        R.extra["model_s"] = round(time.time() - t1, 1)
-        t2 = time.time()
-        results = pool.map(_work, chunks(list(zip(cases, mres)), nproc * 8))
-        R.extra["impl_s"] = round(time.time() - t2, 1)
+        results = pool.map(_work, chunks(list(zip(cases, mres)), nproc * 12), chunksize=1)
+    R.extra["impl_s"] = round(time.time() - t2, 1)
     flat = [x for part in results for x in part]
     for ci, ((fails, mism, cnt), case) in enumerate(zip(flat, cases)):
-        R.case(json.dumps(case, sort_keys=True, default=str), nontrivial=bool(case["self"][3]),
+        key = json.dumps(case, sort_keys=True, default=str)
+        R.case(hash(key), nontrivial=bool(case["self"][3]),
                sample={"front": case["front"], "opts": case["opts"], "threads": case["threads"], "kind": case["kind"]} if ci % 9973 == 0 else None)
         R.count("front:" + case["front"])
         R.count("kind:" + case["kind"])
